@@ -3,10 +3,10 @@
 
   Proved here: the facts about one pass that the determinism / idempotence argument rests on
   (`expandOne_quote_parity`, `expandOne_id_of_no_match`) and the facts about the regenerated
-  macro table it needs (`c17_table_*`, by kernel evaluation).  The full statements —
-  order independence, idempotence, equality with the token-level spec — are exercised by the
-  correspondence check (every run re-randomises the map order; the result is expanded again;
-  the Lean spec is evaluated on every generated text); they are not yet theorems: partial.
+  macro table it needs (`c17_table_*`, by kernel evaluation).  The full statements - equality
+  with the token-level spec, order independence, idempotence - are theorems in
+  `Proofs/C17Spec.lean` (`c17_pass_eq_spec`, `c17_expand_eq_spec`, `c17_order_independent`,
+  `c17_idempotent`, and their instances for the regenerated table).
 -/
 import KsVerif.Kfl.Macro
 
